@@ -184,11 +184,16 @@ def run_sem_check(pid, tier, families, rule, assumptions, extra_cases=None, want
                 for k, run in enumerate(c["runs"]):
                     ev.case({"src": c["src"][:900], "ins": run[:6]}, len(c["src"]) > 120,
                             key=vlib.shash([c["src"], run]))
-    for (name, cases) in (extra_cases or []):
+    for fam in (extra_cases or []):
+        name, cases = fam[0], fam[1]
+        optional = len(fam) > 2 and fam[2]
         results = run_native(pid, cases, name, want_eval=want_eval)
         nv, ncf, kinds = validate(pid, cases, results, verd, ev, name, sig_extra={"family": name})
-        if ncf:
+        if ncf and not optional:
             raise vlib.ToolError("%d hand-built %s programs do not compile" % (ncf, name))
+        if optional:
+            # a family whose programs the compiler may legitimately refuse (then nothing is asserted about them)
+            ev.extra["family_%s_programs_refused_by_the_compiler" % name] = ncf
         ev.traces += nv
         for k, v in kinds.items():
             allkinds[k] = allkinds.get(k, 0) + v
@@ -342,4 +347,87 @@ def literal_cases(base_id=200000):
         add(_fn("f64", [], fl("f64", m, True)), "f64")
         lf = A.let("x1", "f32", fl("f32", m, False))
         add(_fn("f32", [lf], A.var("x1")), "f32")
+    return cases
+
+
+# ---------------------------------------------------------------- match matrix (C01 / C02 / C08)
+
+def match_cases(base_id=300000):
+    """Directed family for `match`: for enums with 2..5 variants (unit variants, one payload, two payloads) every
+    single variant and every pair of variants named in the arms with `_` for the rest, in plain form, with a
+    guarded arm in front of the unguarded one, and with a guarded `_` arm in front of the variant arms; the runs
+    are every variant as the run-time examinee x the guard's value.  Expected values come from RotoSem."""
+    import itertools
+    cases = []
+    cid = base_id
+    u32 = lambda n: A.ilit("u32", n)
+    for nv in (2, 3, 4, 5):
+        payloads = [[], ["u32"], ["u32", "bool"], [], ["u32"]][:nv]
+        tname = "M%d" % nv
+        tdecl = {"k": "enum", "n": tname, "ps": [], "vs": [["W%d" % j, payloads[j]] for j in range(nv)]}
+        ty = ["named", tname, []]
+
+        def mk_value(j):
+            args = [A.host("in", t, 2 + i, []) for i, t in enumerate(payloads[j])]
+            return {"k": "ctor", "en": tname, "v": "W%d" % j, "args": args}
+        # fn make(k: u8) -> M: chain of ifs
+        e = mk_value(nv - 1)
+        for j in range(nv - 2, -1, -1):
+            e = A.if_(A.binop("eq", "u8", A.var("k"), A.ilit("u8", j)), A.block([], mk_value(j)), A.block([], e))
+        make = {"ps": ["k"], "pts": ["u8"], "rt": ty, "b": A.block([], e)}
+
+        def arm(j, tagbase, guard=None):
+            bs = ["b%d" % i for i in range(len(payloads[j]))]
+            body = u32(tagbase + j)
+            if payloads[j]:
+                body = A.binop("add", "u32", A.binop("mul", "u32", A.var(bs[0]), u32(100)), u32(tagbase + j))
+            return {"v": "W%d" % j, "bs": bs, "g": [guard] if guard is not None else [], "b": A.host("emit", "u32", tagbase + j, [body])}
+
+        def wild(tag, guard=None):
+            return {"v": "_", "bs": [], "g": [guard] if guard is not None else [], "b": A.host("emit", "u32", tag, [u32(tag)])}
+        subsets = [list(s) for s in itertools.combinations(range(nv), 1)] + \
+                  [list(s) for s in itertools.permutations(range(nv), 2) if nv > 2]
+        for sub in subsets:
+            forms = ["plain"] if len(sub) == 2 else ["plain", "guarded_arm", "guarded_wild_first", "guarded_wild_between"]
+            for form in forms:
+                g = lambda: A.host("in", "bool", 1, [])
+                if form == "plain":
+                    arms = [arm(j, 10) for j in sub] + [wild(90)]
+                elif form == "guarded_arm":
+                    arms = [arm(sub[0], 20, g()), arm(sub[0], 10), wild(90)]
+                elif form == "guarded_wild_first":
+                    arms = [wild(80, g()), arm(sub[0], 10), wild(90)]
+                else:
+                    arms = [arm(sub[0], 20, g()), wild(80, A.host("emit", "bool", 70, [g()])), arm(sub[0], 10), wild(90)]
+                body = A.block([A.let("e1", ty, {"k": "call", "f": "make", "args": [A.host("in", "u8", 0, [])]})],
+                               {"k": "match", "e": A.var("e1"), "arms": arms})
+                prog = {"types": [tdecl], "fns": {"make": make, "main": {"ps": [], "pts": [], "rt": "u32", "b": body}}}
+                runs = []
+                for j in range(nv):
+                    for gv in ([False, True] if form != "plain" else [False]):
+                        runs.append([{"ty": "u8", "v": A.int_bytes("u8", j)}, {"ty": "bool", "v": gv},
+                                     {"ty": "u32", "v": A.int_bytes("u32", 7 + j)}, {"ty": "bool", "v": True}])
+                cid += 1
+                cases.append(_case(cid, prog, "u32", runs))
+    return cases
+
+
+def negmin_cases(base_id=400000):
+    """`-128i8`, `-32768i16`, `-2147483648i32`: the only way to write the minimum of a signed type is the negation
+    of a literal whose magnitude is one above the maximum; the literal wraps to the minimum and the negation of the
+    minimum is the minimum (two's complement)."""
+    cases = []
+    cid = base_id
+    for ty in ("i8", "i16", "i32"):
+        mag = 1 << (8 * A.WIDTH[ty] - 1)
+        l = A.lit(ty, A.int_bytes(ty, mag))
+        neg = A.un("neg", ty, l)
+        cid += 1
+        cases.append(_case(cid, _fn(ty, [], neg), ty, [[]]))
+        cid += 1
+        cases.append(_case(cid, _fn("bool", [A.let("x1", ty, neg)], A.binop("eq", ty, A.var("x1"), A.host("in", ty, 0, []))), "bool",
+                           [[{"ty": ty, "v": A.int_bytes(ty, -mag)}], [{"ty": ty, "v": A.int_bytes(ty, -mag + 1)}]]))
+        cid += 1
+        cases.append(_case(cid, _fn(ty, [], A.binop("add", ty, neg, A.host("in", ty, 0, []))), ty,
+                           [[{"ty": ty, "v": A.int_bytes(ty, 1)}], [{"ty": ty, "v": A.int_bytes(ty, mag - 1)}]]))
     return cases
